@@ -74,7 +74,7 @@ fn large_text_histories() -> Vec<History> {
                         ops.push(Op::ShrinkToFit { slot: 0, try_: false });
                     }
                     _ => {
-                        ops.push(Op::Extend { slot: 0, it: IterSpec { kind: IterKind::Str, items: vec!["é€𝄞".repeat(add / 9 + 1)], slots: vec![], hint: None, panic_at: None, loose: None } });
+                        ops.push(Op::Extend { slot: 0, it: IterSpec { kind: IterKind::Str, items: vec!["é€𝄞".repeat(add / 9 + 1)], slots: vec![], hint: None, panic_at: None, loose: None, fx: None } });
                         ops.push(Op::Remove { slot: 0, idx: Idx::Raw(0), try_: false });
                     }
                 }
